@@ -20,6 +20,7 @@
 #error "compile with -DSIM_FLAVOUR=0|1|2"
 #endif
 const int sim_flavour = SIM_FLAVOUR;
+static __thread int t_in_api_call;  // between sim_in_lib(op) and sim_in_lib(0) on this thread
 
 #if SIM_FLAVOUR == SIM_PLAIN && __has_include(<valgrind/drd.h>)
 #include <valgrind/drd.h>
@@ -503,6 +504,13 @@ void __wrap_free(void* p) {
   blk_t* b = find_block(p);
   if (!b || b->start != (uint8_t*)p) die("simrt: free() of a pointer that is not the start of a simulated block");
   if (b->frozen) {
+    if (t_in_api_call) {
+      // an API call releases memory of an object that is immutable for its whole life (a module, a table, a prepared
+      // operand that is still alive): reported like a write to it, through the fault handler
+      hunlock();
+      *(volatile uint8_t*)b->start = 0;
+      hlock();
+    }
     b->frozen = 0;
     set_prot(b, 0);
   }
@@ -874,6 +882,7 @@ uint64_t sim_harness_point(int kind, int op) {
   return g_st.steps;
 }
 void sim_in_lib(int op) {
+  t_in_api_call = op != 0;
   if (t_self >= 0) T[t_self].in_lib = op;
 #ifdef SIM_HAVE_DRD
   if (g_drd > 0) {
